@@ -43,6 +43,10 @@ fn establish_case(ctx: &mut Ctx, idx: usize, w: &World, w2: &World) {
     let other = Agreed::random(ctx);
     let mut a2 = a.clone(); a2.cid = other.cid; a2.cid_s = other.cid_s;
     let _ = initialize_check(ctx, w, &a2, &run.d, Some(false), "other-channel-id");
+    for (what, b) in near_cids(&a.cid.to_bytes()) {
+        let a2 = a.with_cid(&b);
+        let _ = initialize_check(ctx, w, &a2, &run.d, Some(false), &format!("channel-id-{}-flipped", what));
+    }
     for (what, d) in [("customer-balance", 0), ("merchant-balance", 1)] {
         for delta in [1i128, -1, 0] {
             let cur = if d == 0 { a.cb } else { a.mb } as i128;
@@ -206,6 +210,8 @@ fn closing_case(ctx: &mut Ctx, idx: usize, w: &World) {
         let mut alts: Vec<(&str, Vec<u8>)> = vec![];
         let base = m[96..176].to_vec();
         let mut x = base.clone(); x[..32].copy_from_slice(&other.cid.to_bytes()); alts.push(("channel-id-of-another-channel", x));
+        { let mut cidb = [0u8; 32]; cidb.copy_from_slice(&base[..32]);
+          for (_what, b) in near_cids(&cidb) { let mut x = base.clone(); x[..32].copy_from_slice(&b); alts.push(("channel-id-one-bit-flipped", x)); } }
         for l in locks.iter() { if l[..] != base[32..64] { let mut x = base.clone(); x[32..64].copy_from_slice(l); alts.push(("lock-of-another-state", x)); } }
         let mut x = base.clone(); x[32..64].copy_from_slice(&wire::enc_s(&rand_scalar(&mut ctx.prng))); alts.push(("random-lock", x));
         for (off, name) in [(64usize, "merchant-balance"), (72usize, "customer-balance")] {
